@@ -296,7 +296,10 @@ class Convention(abc.ABC, Generic[GridKind, Index]):
         ----------
         .. [1] `CF Conventions v1.10, 4.4 Time Coordinate <https://cfconventions.org/Data/cf-conventions/cf-conventions-1.10/cf-conventions.html#time-coordinate>`_
         """
-        for name in self.dataset.variables.keys():
+        # Coordinate variables are checked first. A data variable can also hold
+        # times, such as a forecast valid time, without being the time coordinate.
+        names = [*self.dataset.coords.keys(), *self.dataset.data_vars.keys()]
+        for name in names:
             variable = self.dataset[name]
             # xarray will automatically decode all time variables
             # and move the 'units' attribute over to encoding to store this change.
